@@ -23,6 +23,8 @@ Accept(e, c) ==
   CASE e.op = "eq" -> /\ PropEq(c, e.a, e.b, e.calls, e.ret)
                       /\ PropNe(c, e.a, e.b, e.ncalls, e.nret)
     [] e.op \in {"cmp", "partial_cmp"} -> PropCmp(c, e.op, e.a, e.b, e.calls, e.ret)
+    [] e.op = "eq_same" -> PropEqSame(c, e.a, e.calls, e.ret) /\ PropNeSame(c, e.a, e.ncalls, e.nret)
+    [] e.op = "partial_cmp_same" -> PropCmpSame(c, "partial_cmp", e.a, e.calls, e.ret)
     [] e.op = "hashes" -> PropHashAll(c, e.obs, e.eqs)
     [] e.op = "cmp_layout" ->
          /\ PropCmpResults(c, "partial_cmp", e.a, e.b, e.prets)
